@@ -11,11 +11,16 @@ REQUIRED = {t: "oracle:C16.invariant oracle:C16.bad-add-refused oracle:C16.assig
 
 def plan(tier, seed):
     if tier == "quick":
-        return [{"kind": "c16", "shard": s, "n": 1000} for s in range(3)]
-    return [{"kind": "c16", "shard": s, "n": 20000} for s in range(14)]
+        return [{"kind": "c16", "shard": s, "n": 2500} for s in range(4)] + [{"kind": "repo-tests"}]
+    return [{"kind": "c16", "shard": s, "n": 20000} for s in range(14)] + [{"kind": "repo-tests"}]
 
 
 def run_shard(desc, rec):
+    if desc["kind"] == "repo-tests":
+        from ..drivers import repotests
+        return repotests.run_shard(desc, rec)
+    from ..monitors import contracts
+    contracts.install(rec)   # auxiliary class invariants (icontract), record-only
     drv.run_shard(desc, rec)
 
 
